@@ -219,7 +219,8 @@ def yaml_text(items):
     return "\n".join(lines) + "\n"
 
 
-DATA_VALUES = [1, 2, "s", [1], [2, 1], {"p": 1}, {"q": [1]}, {"p": {"r": 2}}, {1, 2}, {2, 3}, None, {}, []]
+DATA_VALUES = [1, 2, "s", [1], [2, 1], {"p": 1}, {"q": [1]}, {"p": {"r": 2}}, {1, 2}, {2, 3}, None, {}, [],
+               0, "", False, "\u00e9t\u00e9", -7, 10 ** 20, {"": None}, [None, ""]]
 DATA_KEYS = ["k", "m", "l", "d"]
 
 
